@@ -11,10 +11,15 @@ import time
 
 ROOT = os.path.dirname(os.path.dirname(os.path.abspath(__file__)))
 SPEC = os.path.join(ROOT, "spec")
-HARNESS = os.path.join(ROOT, "harness")
-WORK = os.path.join(ROOT, "work")
-OUT = os.path.join(ROOT, "out")
-EVID = os.path.join(ROOT, "evidence")
+# The registered checks always use /repo and /verif/harness.  tools/try_mutant_wt.sh audits seeded changes in
+# a scratch worktree instead, with a scratch copy of the harness whose path dependency points there; it
+# redirects the directories below through the environment so that nothing under /verif is touched.
+HARNESS = os.environ.get("VERIF_HARNESS", os.path.join(ROOT, "harness"))
+FEATPROBE = os.environ.get("VERIF_FEATPROBE", os.path.join(ROOT, "featprobe"))
+REPO = os.environ.get("VERIF_REPO", "/repo")
+WORK = os.environ.get("VERIF_WORK", os.path.join(ROOT, "work"))
+OUT = os.environ.get("VERIF_OUT", os.path.join(ROOT, "out"))
+EVID = os.environ.get("VERIF_EVID", os.path.join(ROOT, "evidence"))
 VH = os.path.join(HARNESS, "target", "release", "vh")
 TLA_JAR = "/opt/veriftools/tla/tla2tools.jar"
 CM_JAR = "/opt/veriftools/tla/CommunityModules-deps.jar"
